@@ -1098,7 +1098,32 @@ impl<'r> Grammar<'r> {
             self.km("asm", Mark::Start(depth));
             let n = self.rng.range(1, 4);
             for _ in 0..n {
-                match self.rng.below(5) {
+                match self.rng.below(8) {
+                    5 | 6 | 7 => {
+                        // an instruction with an inline conditional directive
+                        let (a, b): (&[&str], &[&str]) = match self.rng.below(4) {
+                            0 => (&["1"], &["2"]),
+                            1 => (&["'W'"], &["'A'"]),
+                            2 => (&["[", "eax", "+", "4", "]"], &["[", "ebx", "]"]),
+                            _ => (&["ecx"], &["edx"]),
+                        };
+                        for w in ["mov", "eax", ","] {
+                            self.t(w);
+                        }
+                        self.t("{$IFDEF CPUX64}");
+                        for w in a {
+                            self.t(w);
+                        }
+                        self.t("{$ELSE}");
+                        for w in b {
+                            self.t(w);
+                        }
+                        self.t("{$ENDIF}");
+                        if self.rng.chance(2, 3) {
+                            self.t(",");
+                            self.t("ebx");
+                        }
+                    }
                     0 => {
                         self.t("mov");
                         self.t("eax");
